@@ -942,6 +942,8 @@ func runEvalCase(c *Ctx, e *ex, expr string, m string, binds []binding, label st
 func propC01(c *Ctx) {
 	g := newExGen(c)
 	g.funcs = []string{"Max", "min", "SUM", "If", "Array", "abs", "Choose", "nosuch", "Contains", "Trunc"}
+	// names that are different variables for the collection (upper-case comparison) although their lower-case forms coincide
+	g.vars = append(g.vars, "T\u212a", "Tk", "x\u212b", "xå")
 	n := 1200
 	if c.Thorough {
 		n = 40000
@@ -962,6 +964,18 @@ func propC01(c *Ctx) {
 	}
 	propScaleExpressions(c, "C01")
 	propLiterals(c)
+	propDefaultTableEdits(c)
+	for _, pr := range [][2]string{{"T\u212a", "Tk"}, {"x\u212b", "xå"}, {"Tk", "T\u212a"}} {
+		for _, tpl := range []string{"%s - %s", "Array(%s, %s)[0] * 10 + Array(%s, %s)[1]", "%s + %s * 2 - %s"} {
+			expr := strings.ReplaceAll(strings.ReplaceAll(strings.Replace(strings.Replace(tpl, "%s", pr[0], 1), "%s", pr[1], 1), "%s", pr[0]), "%s", pr[1])
+			if strings.Count(tpl, "%s") == 3 {
+				expr = fmt.Sprintf(tpl, pr[0], pr[1], pr[0])
+			} else if strings.Count(tpl, "%s") == 4 {
+				expr = fmt.Sprintf(tpl, pr[0], pr[1], pr[0], pr[1])
+			}
+			runEvalCase(c, nil, expr, "u", []binding{{pr[0], vInt(300)}, {pr[1], vInt(27)}}, "variables-with-coinciding-lower-case")
+		}
+	}
 	// operator-pair matrix: a op1 b op2 c for every ordered pair of binary operators
 	vals := []string{"7", "2", "3"}
 	for _, o1 := range binOps {
@@ -1081,6 +1095,10 @@ func propLiterals(c *Ctx) {
 
 func replayEval(c *Ctx, op string) {
 	if replaySeq(c, op) || replayEntry(c, op) {
+		return
+	}
+	if strings.HasPrefix(op, "deftable ") {
+		propDefaultTableEdits(c)
 		return
 	}
 	if f := strings.Fields(op); len(f) == 2 && f[0] == "lit" {
